@@ -2,6 +2,7 @@
 import hll_rules as H
 import chains
 import generic_lints
+import predicates
 import triggers
 
 
@@ -17,6 +18,8 @@ def run(facts, tier):
         ("coupon codec", H.coupon_constants, 1, "pair/getLow26/getValue use one key width"),
         ("canonical chains", lambda fa: chains.obligations(fa, ["hll"]), 11, "typed update overloads follow the cross-language canonicalisation contract"),
         ("mode byte", H.mode_byte, 1, "mode byte encode/decode are inverse"),
+        ("emptiness predicate support", lambda fa: predicates.obligations(fa, ['HllArray','CouponList','hll_sketch_alloc']), 5, "the emptiness predicate still consults every field it depended on in the reviewed tree (spec/predicates.json)"),
+        ("coupon identity", H.coupon_identity, 2, "LIST and SET agree on what an already-present coupon is: the whole stored element equals the whole new coupon"),
         ("tautologies", lambda fa: generic_lints.tautologies(fa, ('hll/',)), 2, "no comparison / assignment / min-max with two identical operands, no if-else with identical arms"),
         ("duplicate operands", lambda fa: generic_lints.duplicate_conjuncts(fa, ('hll/',)), 2, "no logical chain tests the same operand twice (copy-paste of the wrong peer)"),
         ("forwarding peers", lambda fa: generic_lints.forwarding_peers(fa, ('hll/',)), 2, "one-statement typed overloads forward to an overload of their own name, never to the head of a sibling family (wrong peer)"),
